@@ -20,7 +20,7 @@ RULE = ("histories of ~14 steps over a pool of 5 objects and 2 classes: register
 ASSUMPTIONS = ["harness classes that travel by value live in an importable module without '__' and the caller registers a dict-to-class converter (the sanctioned extension point)",
                "forced replacement of an id is an explicit request, not a silent one", "for an object forcibly registered under two ids only id->object dispatch and the reported id set are checked",
                "marshal has no type-replacement hook by design: by-value only"]
-REQUIRED_REACH = ["steps_ok", "calls_dispatched", "unknown_id_refused", "returned_as_proxy", "returned_by_value", "duplicates_refused", "weak_collected", "registered_listing_ok", "combined_daemon_rounds"]
+REQUIRED_REACH = ["returned_as_proxy_after_converter_churn", "steps_ok", "calls_dispatched", "unknown_id_refused", "returned_as_proxy", "returned_by_value", "duplicates_refused", "weak_collected", "registered_listing_ok", "combined_daemon_rounds"]
 SHARD_TIMEOUT = {"quick": 240, "thorough": 2800}
 AUTO = ("serpent", "json", "msgpack")
 
@@ -655,6 +655,69 @@ def combined_phase(P, rec, r, rounds):
         two.stop()
 
 
+def converter_churn_phase(P, servertype, rec, r):
+    """The daemon's auto-proxy hook shares the serializers' per-type registries with the application: a by-value converter registered for
+    a class and taken away again later (SerializerBase.register_class_to_dict / unregister_class_to_dict, both documented) leaves those
+    registries without any entry for the type. Every registration the daemon accepts afterwards is a registered object like any other:
+    returned from a method it arrives as a proxy that reaches that very object."""
+    @P.server.expose
+    class Thing(object):
+        def __init__(self, n):
+            self.n = n
+
+        def hello(self):
+            return "thing %d" % self.n
+
+    things = {}
+
+    @P.server.expose
+    class Giver(object):
+        def give(self, i):
+            return things[i]
+
+    fx = fixture.Fixture(servertype=servertype, COMMTIMEOUT=0.0)
+    try:
+        fx.register(Giver(), "giver")
+
+        def check(i, sername, stage):
+            pay = {"churn": True, "servertype": servertype}
+            rec.case(("churn", servertype, sername, stage, i), nontrivial=True)
+            with fx.proxy("giver", serializer=sername) as g:
+                try:
+                    res = g.give(i)
+                except Exception as x:
+                    rec.violation("registered-object-not-proxied", "%s: %s: returning registered object %d raised %r" % (stage, sername, i, x), pay)
+                    return False
+            if not isinstance(res, P.client.Proxy):
+                rec.violation("registered-object-not-proxied", "%s: %s: registered object %d arrives as %s" % (stage, sername, i, core.short(res, 100)), pay)
+                return False
+            with res:
+                res._pyroSerializer = sername
+                if res.hello() != "thing %d" % i:
+                    rec.violation("proxy-reaches-other-object", "%s: %s: the proxy for object %d answers %r" % (stage, sername, i, res.hello()), pay)
+                    return False
+            rec.count("returned_as_proxy_after_converter_churn")
+            return True
+        SB = P.serializers.SerializerBase
+        n = 0
+        for rounds in range(3):
+            things[n] = Thing(n)
+            fx.register(things[n], weak=rounds == 1)
+            for sername in ("serpent", "json", "msgpack"):          # (marshal has no per-type hook by design: by value only)
+                if not all(check(i, sername, "round %d, after registering object %d" % (rounds, n)) for i in things):
+                    return
+            # the application's by-value converter comes and goes
+            SB.register_class_to_dict(Thing, lambda o: {"__class__": "c16.Thing", "n": o.n})
+            SB.unregister_class_to_dict(Thing)
+            n += 1
+    finally:
+        try:
+            P.serializers.SerializerBase.unregister_class_to_dict(Thing)
+        except Exception:
+            pass
+        fx.stop()
+
+
 def plan(tier, seed):
     n = 8 if tier == "quick" else 16
     return [{"i": i, "servertype": "thread" if i % 2 == 0 else "multiplex", "histories": 200 if tier == "quick" else 1500} for i in range(n)]
@@ -677,6 +740,8 @@ def run_shard(shard, rec):
     finally:
         fx.sibling.stop()
         fx.stop()
+    if shard["i"] < 2:
+        converter_churn_phase(P, shard["servertype"], rec, r)
     if shard["servertype"] == "multiplex":
         combined_phase(P, rec, r, 4 if rec.tier == "quick" else 40)
     else:
@@ -685,6 +750,9 @@ def run_shard(shard, rec):
 
 def replay(payload, rec):
     P = fixture.pyro()
+    if payload.get("churn"):
+        converter_churn_phase(P, payload.get("servertype", "thread"), rec, gen.rng(rec.seed, "replay"))
+        return
     if payload.get("combined"):
         combined_phase(P, rec, gen.rng(rec.seed, "replay"), 10)
         return
